@@ -17,6 +17,8 @@ import (
 	"encoding/json"
 	"flag"
 	"fmt"
+	"hash/fnv"
+	"io"
 	"os"
 	"path/filepath"
 	"regexp"
@@ -431,6 +433,62 @@ type result struct {
 	keysOK bool
 }
 
+// lintLevel: the diagnostics of the rule as the LINTER returns them (Linter.Lint, the entry point a
+// user has) are the ones the rule produced - none lost, none added - also when the run is given
+// -ignore patterns none of which matches a message of this rule
+func lintLevel(src string, w *actionlint.Workflow) string {
+	rule := actionlint.NewRuleJobNeeds()
+	v := actionlint.NewVisitor()
+	v.AddPass(rule)
+	if err := v.Visit(w); err != nil {
+		return ""
+	}
+	var want []string
+	for _, e := range rule.Errs() {
+		want = append(want, fmt.Sprintf("%d:%d: %s", e.Line, e.Column, e.Message))
+	}
+	sort.Strings(want)
+	for oi, opts := range []*actionlint.LinterOptions{
+		{Shellcheck: "", Pyflakes: ""},
+		// patterns that match no message of the rule: an inline flag group first, then fragments of the
+		// rule's messages in the wrong letter case
+		{Shellcheck: "", Pyflakes: "", IgnorePatterns: []string{"(?i)sc[0-9]{4} zz-nothing", "CYCLIC DEPENDENCIES", "DOES NOT EXIST", "IS ALREADY LISTED", "^JOB ", "\"[A-Z][A-Z0-9_-]*\" ->"}},
+		{Shellcheck: "", Pyflakes: "", IgnorePatterns: []string{"(?s)zz.nothing", "(?i)^zz", "NEEDS", "(?-i)Needs Job"}},
+	} {
+		l, err := actionlint.NewLinter(io.Discard, opts)
+		if err != nil {
+			return "linter-options: " + err.Error()
+		}
+		errs, err := l.Lint("test.yaml", []byte(src), nil)
+		if err != nil {
+			return "lint-error: " + err.Error()
+		}
+		var got []string
+		for _, e := range errs {
+			if e.Kind == "job-needs" {
+				got = append(got, fmt.Sprintf("%d:%d: %s", e.Line, e.Column, e.Message))
+			}
+		}
+		sort.Strings(got)
+		if strings.Join(got, "\n") != strings.Join(want, "\n") {
+			lost := ""
+			gs := map[string]int{}
+			for _, g := range got {
+				gs[g]++
+			}
+			for _, x := range want {
+				if gs[x] == 0 {
+					lost = x
+					break
+				}
+				gs[x]--
+			}
+			return fmt.Sprintf("diagnostics-differ: the linter returns %d diagnostics of the rule, the rule produced %d (options set %d); first one lost: %s", len(got), len(want), oi, lost)
+		}
+	}
+	return ""
+}
+
 func evalSource(src string, reps int, class bool) *result {
 	r := &result{src: src}
 	w, _ := actionlint.Parse([]byte(src))
@@ -451,6 +509,14 @@ func evalSource(src string, reps int, class bool) *result {
 	}
 	seen := map[string]bool{}
 	failed := map[string]bool{}
+	if h := fnv.New32a(); true {
+		h.Write([]byte(src))
+		if h.Sum32()%6 == 0 || len(src) > 1500 {
+			if what := lintLevel(src, w); what != "" {
+				r.fails = append(r.fails, failure{What: what, Key: "lint-level:" + strings.SplitN(what, ":", 2)[0], Workflow: src})
+			}
+		}
+	}
 	for i := 0; i < reps; i++ {
 		ds, err := runRule(w)
 		if err != nil {
@@ -827,6 +893,18 @@ func oddSpecs() []*spec {
 		}
 		sp.ords = randOrds(hx.NewRng(7), ids, 2)
 		out = append(out, sp)
+	}
+	// more duplicate entries than any budget, next to a cycle and next to none
+	for _, cyc := range []bool{true, false} {
+		a := gjob{id: "a"}
+		for k := 0; k < 130; k++ {
+			a.needs = append(a.needs, []string{"b", "B"}[k%2])
+		}
+		b := gjob{id: "b"}
+		if cyc {
+			b.needs = []string{"a"}
+		}
+		out = append(out, &spec{group: "many-duplicates", jobs: []gjob{a, b}}, &spec{group: "many-duplicates", jobs: []gjob{b, a}})
 	}
 	perms := [][]string{{"setup", "Setup", "test"}, {"setup", "test", "Setup"}, {"test", "setup", "SETUP"}, {"setup", "setup", "test"}, {"Setup", "test", "test", "setup"}, {"test", "setup", "setup"}}
 	for _, p := range perms {
